@@ -402,30 +402,36 @@ pub fn run_check(scn: &dyn Scenario, tier: Tier, seed: u64, workers: usize, writ
     }
     viols.sort_by(|a, b| (a.0, a.1.step).cmp(&(b.0, b.1.step)));
 
-    // distinct violations: first occurrence (lowest run) of each key
-    let mut distinct: BTreeMap<String, (u64, Violation, u64)> = BTreeMap::new();
-    for (run, v) in &viols {
-        distinct.entry(v.key()).and_modify(|e| e.2 += 1).or_insert((*run, v.clone(), 1));
-    }
-
-    let mut exit = 0;
-    let mut reported = 0u32;
-    let mut known_printed: Vec<String> = Vec::new();
+    // group violations by (property, class, backend, op); known findings are matched per
+    // violation (including its detail), so a different failing input of the same class is
+    // still reported
+    let mut known_hits: BTreeMap<String, (String, String, u64)> = BTreeMap::new();
+    let mut groups: BTreeMap<String, (u64, Violation, u64, BTreeMap<String, u64>)> = BTreeMap::new();
     let mut foreign: BTreeMap<String, u64> = BTreeMap::new();
-    let replay_dir = verif_dir().join("replays");
-    for (key, (run, v, count)) in &distinct {
+    for (run, v) in &viols {
         if v.property != prop && !scn.adopts(v) {
-            *foreign.entry(format!("{}:{}:{}:{}", v.property, v.class, v.backend, v.op)).or_insert(0) += count;
+            *foreign.entry(format!("{}:{}:{}:{}", v.property, v.class, v.backend, v.op)).or_insert(0) += 1;
             continue;
         }
         if let Some(f) = findings.iter().find(|f| finding_matches(f, v)) {
-            let line = format!("KNOWN-FINDING: property={} {} [{} {} {}] ({} occurrences)", f.property, f.what, v.backend, v.op, v.class, count);
-            if !known_printed.contains(&f.what) {
-                println!("{line}");
-                known_printed.push(f.what.clone());
-            }
+            let e = known_hits.entry(f.what.clone()).or_insert((f.property.clone(), format!("{} {} {}", v.backend, v.op, v.class), 0));
+            e.2 += 1;
             continue;
         }
+        let gk = format!("{}|{}|{}|{}", v.property, v.class, v.backend, v.op);
+        let g = groups.entry(gk).or_insert((*run, v.clone(), 0, BTreeMap::new()));
+        g.2 += 1;
+        *g.3.entry(v.detail.clone()).or_insert(0) += 1;
+    }
+    let mut exit = 0;
+    let mut reported = 0u32;
+    let mut known_printed: Vec<String> = Vec::new();
+    for (what, (p, sig, n)) in &known_hits {
+        println!("KNOWN-FINDING: property={p} {what} [{sig}] ({n} occurrences)");
+        known_printed.push(what.clone());
+    }
+    let replay_dir = verif_dir().join("replays");
+    for (key, (run, v, count, details)) in &groups {
         // a real, unlisted violation: minimise, write replay, verify replay
         let plan = scn.plan(seed, *run, tier);
         let (min_plan, min_v, execs) = minimise(&plan, v, 300);
@@ -460,9 +466,10 @@ pub fn run_check(scn: &dyn Scenario, tier: Tier, seed: u64, workers: usize, writ
             }
         }
         let verified = verify_replay_in_child(&path);
+        let dl: Vec<String> = details.iter().take(8).map(|(d, n)| format!("{d:?}x{n}")).collect();
         println!(
-            "violation: {} {} on {} {} (run {}, {} occurrences; minimised {} -> {} steps in {} executions; replay verified in fresh process: {})\n  {}",
-            v.property, v.class, v.backend, v.op, run, count, plan.steps.len(), min_plan.steps.len(), execs, verified, min_v.msg
+            "violation: {} {} on {} {} (first at run {}, {} occurrences, {} distinct details: {}; minimised {} -> {} steps in {} executions; replay verified in fresh process: {})\n  {}",
+            v.property, v.class, v.backend, v.op, run, count, details.len(), dl.join(", "), plan.steps.len(), min_plan.steps.len(), execs, verified, min_v.msg
         );
         println!("VIOLATION property={} replay={}", prop, path.display());
         reported += 1;
